@@ -20,7 +20,7 @@ func c05class(r *rbT, o *rbOcc) string {
 	if o.ctxKind == 2 && o.inCtxOf(o.name) {
 		return "C05-forbounds"
 	}
-	if o.ctxKind == 4 && o.inCtxOf(o.name) {
+	if o.ctxKind == 4 && o.inCtxOf(o.name) && o.ctxRisky {
 		return "C05-self-assign"
 	}
 	if o.ctxKind == 3 && o.inCtxOf(o.name) {
